@@ -123,6 +123,121 @@ impl State {
 //@use cursor.fns ::kb_units
 //@use cursor.fns ::mb_units
 
+
+// ================= >bitstr (bitstr_concat): flattening nested vectors of byte items and bit-strings =================
+// rpds Vector::iter (ASSUMED): yields the elements in order
+#[verifier::external_body] pub struct XvecIter<'a> { _p: &'a u8 }
+impl<'a> XvecIter<'a> { pub uninterp spec fn rem(&self) -> Seq<&'a Cell>; }
+impl<'a> vstd::std_specs::iter::IteratorSpecImpl for XvecIter<'a> {
+    open spec fn obeys_prophetic_iter_laws(&self) -> bool { true }
+    open spec fn remaining(&self) -> Seq<&'a Cell> { self.rem() }
+    open spec fn will_return_none(&self) -> bool { true }
+    open spec fn decrease(&self) -> Option<nat> { Some(self.rem().len()) }
+    open spec fn peek(&self, index: int) -> Option<&'a Cell> {
+        if 0 <= index < self.rem().len() { Some(self.rem()[index]) } else { None }
+    }
+}
+impl<'a> Iterator for XvecIter<'a> {
+    type Item = &'a Cell;
+    #[verifier::external_body] fn next(&mut self) -> Option<&'a Cell> { unimplemented!() }
+}
+impl Xvec {
+    #[verifier::external_body] pub fn iter(&self) -> (r: XvecIter<'_>)
+        ensures r.rem().len() == self@.len(), forall|i: int| 0 <= i < self@.len() ==> *(#[trigger] r.rem()[i]) == self@[i] { unimplemented!() }
+}
+// the UTF-8 bytes of a string (`s.to_string().into_bytes()`, `s.as_bytes().to_vec()`): ASSUMED to be one function of the string
+pub uninterp spec fn str_bytes(s: Xstr) -> Seq<u8>;
+#[verifier::external_body] fn verif_str_bytes(s: &Xstr) -> (r: Vec<u8>) ensures r@ == str_bytes(*s), r@.len() * 8 <= usize::MAX / 2 { unimplemented!() }
+impl Xerr { #[verifier::external_body] pub fn type_not_supported(val: Cell) -> Xerr { unimplemented!() } }
+// cells are finite trees (ASSUMED): an element of a vector is smaller than the vector, a value no bigger than its tagged form
+pub uninterp spec fn cell_depth(c: Cell) -> nat;
+#[verifier::external_body] proof fn axiom_depth_elem(v: Xvec, i: int) requires 0 <= i < v@.len() ensures cell_depth(v@[i]) < cell_depth(Cell::Vector(v)) {}
+#[verifier::external_body] proof fn axiom_depth_strip(c: Cell) ensures cell_depth(strip(c)) <= cell_depth(c) {}
+
+// the bits one element of a `>bitstr` list contributes: an int 0..255 one byte, a string its bytes, a bit-string
+// its bits, a nested vector the concatenation of its elements in order; anything else is an error
+spec fn item_bits(x: Cell) -> Option<Seq<bool>>
+    decreases cell_depth(x), 2nat, 0int
+    via item_bits_dec
+{
+    match strip(x) {
+        Cell::Int(i) => if 0 <= i <= 255 { Some(bits_of(seq![i as u8], 0, 8)) } else { None },
+        Cell::Str(s) => Some(bits_of(str_bytes(s), 0, 8 * str_bytes(s).len() as int)),
+        Cell::Bitstr(b) => Some(b.view()),
+        Cell::Vector(v) => vec_bits(v, v@.len() as int),
+        _ => None,
+    }
+}
+spec fn vec_bits(v: Xvec, n: int) -> Option<Seq<bool>>
+    decreases cell_depth(Cell::Vector(v)), 1nat, n
+    via vec_bits_dec
+{
+    if n <= 0 { Some(Seq::empty()) } else if n > v@.len() { None } else {
+        match (vec_bits(v, n - 1), item_bits(v@[n - 1])) { (Some(a), Some(b)) => Some(a + b), _ => None }
+    }
+}
+#[via_fn] proof fn item_bits_dec(x: Cell) { axiom_depth_strip(x); }
+#[via_fn] proof fn vec_bits_dec(v: Xvec, n: int) { if 0 < n <= v@.len() { axiom_depth_elem(v, n - 1); } }
+// what `>bitstr` denotes: a string, a (nested) vector or a bit-string; a bare int is not accepted at top level
+spec fn concat_bits(val: Cell) -> Option<Seq<bool>> { if strip(val) is Int { None } else { item_bits(val) } }
+
+// modest sizes: the number of bits the items would contribute (errors ignored) - bounds every intermediate length
+spec fn item_size(x: Cell) -> nat
+    decreases cell_depth(x), 2nat, 0int
+    via item_size_dec
+{
+    match strip(x) {
+        Cell::Int(i) => 8,
+        Cell::Str(s) => 8 * str_bytes(s).len(),
+        Cell::Bitstr(b) => b.view().len(),
+        Cell::Vector(v) => vec_size(v, v@.len() as int),
+        _ => 0,
+    }
+}
+spec fn vec_size(v: Xvec, n: int) -> nat
+    decreases cell_depth(Cell::Vector(v)), 1nat, n
+    via vec_size_dec
+{
+    if n <= 0 || n > v@.len() { 0 } else { vec_size(v, n - 1) + item_size(v@[n - 1]) }
+}
+#[via_fn] proof fn item_size_dec(x: Cell) { axiom_depth_strip(x); }
+#[via_fn] proof fn vec_size_dec(v: Xvec, n: int) { if 0 < n <= v@.len() { axiom_depth_elem(v, n - 1); } }
+proof fn lemma_vec_size_mono(v: Xvec, i: int, j: int)
+    requires 0 <= i <= j <= v@.len()
+    ensures vec_size(v, i) <= vec_size(v, j)
+    decreases j - i
+{
+    if i < j { lemma_vec_size_mono(v, i, j - 1); }
+}
+// a successful flattening has exactly the size
+proof fn lemma_bits_len(x: Cell)
+    ensures item_bits(x) is Some ==> item_bits(x)->0.len() == item_size(x)
+    decreases cell_depth(x), 2nat, 0int
+{
+    axiom_depth_strip(x);
+    match strip(x) { Cell::Vector(v) => { lemma_vec_bits_len(v, v@.len() as int); } _ => {} }
+}
+proof fn lemma_vec_bits_len(v: Xvec, n: int)
+    requires 0 <= n <= v@.len()
+    ensures vec_bits(v, n) is Some ==> vec_bits(v, n)->0.len() == vec_size(v, n)
+    decreases cell_depth(Cell::Vector(v)), 1nat, n
+{
+    if n > 0 { axiom_depth_elem(v, n - 1); lemma_vec_bits_len(v, n - 1); lemma_bits_len(v@[n - 1]); }
+}
+
+// one failing element makes every longer prefix fail
+proof fn lemma_vec_bits_none(v: Xvec, k: int, n: int)
+    requires 0 < k <= n <= v@.len(), vec_bits(v, k) is None
+    ensures vec_bits(v, n) is None
+    decreases n - k
+{
+    if k < n { lemma_vec_bits_none(v, k, n - 1); }
+}
+
+//@use cursor.fns ::bitstr_concat
+//@use cursor.fns ::into_bitstr
+//@use cursor.fns ::word_into_bitstr
+
 // the data words of the word table (Rword)
 //@use words.fns ::load#w_u8
 //@use words.fns ::load#w_u8_bang
